@@ -89,6 +89,8 @@ def parseOp (s : String) : Option Op :=
   -- "nl": the harness learns the entry from READDIRPLUS instead of LOOKUP; same request
   | ["unlink", p, _] => some (.unlink (parsePath p))
   | ["rmdir", p, _] => some (.rmdir (parsePath p))
+  -- the same UNLINK, with a second client's first LOOKUP of the parent directory in flight
+  | ["race", p] => some (.unlink (parsePath p))
   | ["open", p, f] => some (.open (parsePath p) (parseFlag f))
   | ["write", p, f, o, d] => some (.write (parsePath p) (parseFlag f) (o.toNat?.getD 0) (parseChunks d))
   | ["read", p] => some (.read (parsePath p))
